@@ -100,6 +100,13 @@ def write_datadir(path, coin, placements, header_only=(), xor_key=None, names=No
                 name = names.get(fno, default_name(fno))
                 os.rename(os.path.join(path, name), os.path.join(other, name))
                 os.symlink(os.path.join(other, name), os.path.join(path, name))
+        if xor_key is not None:
+            # the key file is a link as well - to a file of another name (a key store), absolute or relative: the key is whatever
+            # opening <datadir>/xor.dat yields
+            target = os.path.join(other, "node-obfuscation.key")
+            os.rename(os.path.join(path, "xor.dat"), target)
+            rel = len(by_file) % 2 == 1
+            os.symlink(os.path.join("..", os.path.basename(other), "node-obfuscation.key") if rel else target, os.path.join(path, "xor.dat"))
     for name, content in extra_files:
         full = os.path.join(path, name)
         if content is None:
